@@ -794,6 +794,59 @@ c17_corpus, _det = _corpus.mk_condition("c17_corpus", _corpus_check)
 DETAIL["c17_corpus"] = _det
 CONDITIONS.append({"fn": "c17_corpus", "quick": 90, "thorough": 200, "sel_only": True, "bounds": _corpus.BOUNDS})
 
+# ---- every registered filter keeps no state between calls: applying it to B after applying it to A gives what it gives in
+# a fresh process (baseline taken at import, before anything else ran) ---------------------------------------------------
+_FH_ENV = _corpus.make_env()
+FH_NAMES = sorted(_FH_ENV.filters)
+FH_VALUES = ["<b>hi</b>", "x <script>alert(1)", "</script>y <i>z</i>", "<style>p{}", "a<![foo[ bar]]>b", "plain", [3, 1, 2], {"k": 1}, "1,2,3", 5, 2.5, None,
+             "%d %s", "2020-01-02", [{"k": 2}, {"k": 1}], "a b  c", "<a><script>", True]
+_FH_T = {}
+for _f in FH_NAMES:
+    for _form in ("{{ v | %s }}", "{{ v | %s: 'k' }}"):
+        try:
+            _FH_T[(_f, _form)] = _FH_ENV.from_string(_form % _f)
+        except Exception:
+            pass
+
+
+def _fh_run(key, v):
+    return _corpus.outcome(lambda: _FH_T[key].render(v=v))
+
+
+_FH_BASE = {(key, bi): _fh_run(key, FH_VALUES[bi]) for key in _FH_T for bi in range(len(FH_VALUES))}
+
+
+def filter_history_sweep(fi, form):
+    key = (FH_NAMES[fi], ("{{ v | %s }}", "{{ v | %s: 'k' }}")[form])
+    if key not in _FH_T:
+        return []
+    bad = []
+    for ai in range(len(FH_VALUES)):
+        _fh_run(key, FH_VALUES[ai])
+        for bi in range(len(FH_VALUES)):
+            got = _fh_run(key, FH_VALUES[bi])
+            if got != _FH_BASE[(key, bi)]:
+                bad.append({"template": key[1] % key[0], "first applied to": repr(FH_VALUES[ai]), "then to": repr(FH_VALUES[bi]), "gives": got,
+                            "in a fresh process": _FH_BASE[(key, bi)]})
+                return bad
+    return bad
+
+
+def c17_filter_history(fi: int, form: int) -> bool:
+    """
+    pre: 0 <= fi <= 79 and 0 <= form <= 1
+    post: _
+    """
+    if excluded("c17_filter_history", locals()):
+        return True
+    from vf.hx import cint
+    fi, form = cint(fi, 0, len(FH_NAMES) - 1), cint(form, 0, 1)
+    return finish(untraced(lambda: not filter_history_sweep(fi, form)))
+
+
+DETAIL["c17_filter_history"] = lambda fi, form: {"failing": filter_history_sweep(fi, form)}
+CONDITIONS.append({"fn": "c17_filter_history", "quick": 90, "thorough": 200, "sel_only": True})
+
 ASSUMPTIONS = [
     "H1: template sources are concrete skeletons; the numbers in the data (0..9, 0..2 where a filter passes them to Decimal/json), the list length 0..3 and a string (<= 2 chars over 'ab ,') are symbolic; the data shapes are a flat list, a nested list, a dict with list/dict values and a list of dicts",
     "H1 carry: 'fresh' = the same source parsed inside the condition by a second environment with its own loader",
